@@ -94,6 +94,7 @@ type SpecEnv struct {
 	loop   *loopInfo
 	locals bool // identifiers may name local variables (current cell contents)
 	inOld  bool
+	head   *State // iterensures: the state at the loop head of the iteration that just ran (for athead(e))
 	pos    token.Pos // source position used to resolve local names when not at a loop
 	// recursive spec function definition in progress
 	recName string
@@ -813,6 +814,17 @@ func (env *SpecEnv) call(x SCall) SpecVal {
 			specFail("%s: missing argument %d", x.Fun, i)
 		}
 		return env.Eval(x.Args[i])
+	}
+	if x.Fun == "athead" {
+		// athead(e): e as it was at the loop head of the iteration whose end is being examined
+		if env.head == nil || len(x.Args) != 1 {
+			specFail("athead(e) is only available in iterensures clauses")
+		}
+		savedSt := env.st
+		env.st = env.head
+		v := env.Eval(x.Args[0])
+		env.st = savedSt
+		return v
 	}
 	switch x.Fun {
 	case "len":
